@@ -446,12 +446,16 @@ Fixpoint update_sources (l : list string) (acc : smap) : res smap :=
               if assoc_mem (fst kv) acc then update_sources t (assoc_set (fst kv) (snd kv) acc) else Err
   end.
 
-Definition update_literal_sources (cur flagl ord : list string) : res (list string) :=
+(* the updated key -> value map *)
+Definition updated_sources (cur flagl : list string) : res smap :=
   do m0 <- literal_sources cur [];
-  do m1 <- update_sources flagl m0;
-  if negb (strs_eqb_ops (sort_strs ord) (map fst m1)) then Diverge   (* not a permutation: bad oracle *)
-  else Ok (map (fun key => (key ++ "=" ++ match assoc_get key m1 with Some v => v | None => "" end)%string) ord).
+  update_sources flagl m0.
 
+Definition render_sources (m : smap) (ord : list string) : list string :=
+  map (fun key => (key ++ "=" ++ match assoc_get key m with Some v => v | None => "" end)%string) ord.
+
+(* every failure of the command is independent of the iteration order, so the command is first run with the
+   keys in sorted order; only a successful command consults [ord] (which the harness can observe only then) *)
 Definition set_generator_args (e : env) (args flagl : list string) (ns newns : string) (ord : list string)
            (global : option genopts) (l : list genargs) : res (list genargs) :=
   match args with
@@ -463,11 +467,16 @@ Definition set_generator_args (e : env) (args flagl : list string) (ns newns : s
         | Some i =>
             match nth_error l i with
             | Some a =>
-                do lits <- (if nilb flagl then Ok (ga_literals a) else update_literal_sources (ga_literals a) flagl ord);
-                let a2 := mkGa (if String.eqb newns "" then ga_namespace a else newns) (ga_name a) (ga_behavior a)
-                               lits (ga_files a) (ga_envs a) (ga_env a)
-                               (merge_global_options (ga_options a) global) (ga_type a) in
-                if generator_valid e a2 then Ok (replace_nth i a2 l) else Err
+                do m <- (if nilb flagl then Ok [] else updated_sources (ga_literals a) flagl);
+                let mk := fun lits =>
+                  mkGa (if String.eqb newns "" then ga_namespace a else newns) (ga_name a) (ga_behavior a)
+                       lits (ga_files a) (ga_envs a) (ga_env a)
+                       (merge_global_options (ga_options a) global) (ga_type a) in
+                let sorted_lits := if nilb flagl then ga_literals a else render_sources m (map fst m) in
+                if negb (generator_valid e (mk sorted_lits)) then Err
+                else if nilb flagl then Ok (replace_nth i (mk (ga_literals a)) l)
+                else if negb (strs_eqb_ops (sort_strs ord) (map fst m)) then Diverge   (* not a permutation: bad oracle *)
+                else Ok (replace_nth i (mk (render_sources m ord)) l)
             | None => Err
             end
         end
